@@ -110,6 +110,8 @@ def parse_obs(path):
             elif t == 'AUTH': blk['auth'] = f[1]
             elif t == 'QRY': blk['qry'] = dict((int(a), b) for a, b in (x.split(':') for x in f[1:]))
             elif t == 'RESP': blk['resp'] = f[1]
+            elif t == 'PRE': blk['pre'] = f[1] == '1'
+            elif t == 'STEP': blk['step'] = f[1] == '1'
     return hs
 
 # ---------------------------------------------------------------- helpers over a history
